@@ -96,7 +96,7 @@ Proof.
 Qed.
 
 (* ---------------------------------------------------------------- observations depend on persisted tensors + options only *)
-Definition opts (t : trans) := (training t, disc t, hard t, smp t, sn_temp t).
+Definition opts (t : trans) := (training t, disc t, hard t, gum t, nos t, sn_temp t).
 
 Lemma observe_forward_opts : forall n s1 s2, meth s1 = meth s2 -> pe s1 = pe s2 -> opts (tr s1) = opts (tr s2) ->
   observe (forward n s1) = observe (forward n s2).
@@ -110,14 +110,14 @@ Theorem resume_equiv : forall c ops n,
   opts_match s c ->
   exists r, resume n c s = Some r /\ observe r = observe (forward n s).
 Proof.
-  intros c ops n s (Hd & Hh & Hs & Ht).
+  intros c ops n s (Hd & Hh & Hg & Hn & Ht).
   destruct (keys_exact c ops) as (_ & _ & _ & Hl). fold s in Hl.
   unfold resume. rewrite Hl. eexists. split; [reflexivity|].
   destruct (keys_run ops (fresh c)) as [Hm _]. fold s in Hm.
   apply observe_forward_opts.
   - cbn. now rewrite Hm.
   - reflexivity.
-  - unfold opts. cbn [set_mode with_tr tr fresh training disc hard smp sn_temp]. now rewrite Hd, Hh, Hs, Ht.
+  - unfold opts. cbn [set_mode with_tr tr fresh training disc hard gum nos sn_temp]. now rewrite Hd, Hh, Hg, Hn, Ht.
 Qed.
 
 (* histories that leave the transient options at their constructor values (optimizer steps, forward passes, mode
@@ -130,7 +130,7 @@ Definition keeps_opts (c : cfg) (o : op) : bool :=
   | OUpdate ot oh og od =>
       match c_meth c with
       | PIT => true
-      | MPS => obool_is oh (c_hard c) && skind_eqb (if is_true od then NoSamp else if is_true og then Gs else Sm) (c_smp c)
+      | MPS => obool_is oh (c_hard c) && obool_is og (c_gum c) && obool_is od (c_nos c)
       | SN => obool_is oh (c_hard c) && match ot with None => true | Some _ => false end
       end
   | _ => true
@@ -143,12 +143,13 @@ Proof. intros [x|] b; cbn; [|reflexivity]. intros H. now apply eqb_prop in H. Qe
 
 Lemma opts_match_step : forall c s o, meth s = c_meth c -> keeps_opts c o = true -> opts_match s c -> opts_match (step s o) c.
 Proof.
-  intros c [m p t] o Hm Hk (Hd & Hh & Hs & Ht). cbn [meth] in Hm. subst m. destruct t. cbn in Hd, Hh, Hs, Ht. subst.
+  intros c [m p t] o Hm Hk (Hd & Hh & Hg & Hn & Ht). cbn [meth] in Hm. subst m. destruct t. cbn in Hd, Hh, Hg, Hn, Ht. subst.
   unfold opts_match. destruct o; cbn [step keeps_opts] in *.
   - cbn. auto.
   - destruct (c_meth c); cbn; auto. apply eqb_prop in Hk. subst. auto.
   - destruct (c_meth c); cbn; auto.
-    + apply andb_true_iff in Hk as [H1 H2]. apply skind_eqb_eq in H2. rewrite (obool_is_upd _ _ H1). auto.
+    + apply andb_true_iff in Hk as [H12 H3]. apply andb_true_iff in H12 as [H1 H2].
+      rewrite (obool_is_upd _ _ H1), (obool_is_upd _ _ H2), (obool_is_upd _ _ H3). auto.
     + apply andb_true_iff in Hk as [H1 H2]. destruct t; [discriminate|]. rewrite (obool_is_upd _ _ H1). cbn. auto.
   - cbn. auto.
   - cbn. auto.
@@ -167,7 +168,7 @@ Theorem resume_equiv_neutral_history : forall c ops n,
   exists r, resume n c (run (fresh c) ops) = Some r /\ observe r = observe (forward n (run (fresh c) ops)).
 Proof.
   intros c ops n H. apply resume_equiv. apply opts_match_run; [reflexivity | assumption |].
-  unfold opts_match. cbn. auto.
+  unfold opts_match. cbn. auto 6.
 Qed.
 
 (* ---------------------------------------------------------------- finer: which observation needs which option *)
@@ -193,6 +194,14 @@ Lemma mps_resample_eval : forall k1 k2 h1 h2 n q, k1 <> NoSamp -> k2 <> NoSamp -
   mps_resample k1 false h1 n q = mps_resample k2 false h2 n q.
 Proof. intros. unfold mps_resample. destruct (s_reach q); [|reflexivity]. now rewrite !mps_sample_eval. Qed.
 
+Lemma observe_forward_mps_eval : forall n p t1 t2, training t1 = false -> training t2 = false ->
+  smp t1 <> NoSamp -> smp t2 <> NoSamp ->
+  observe (forward n {| meth := MPS; pe := p; tr := t1 |}) = observe (forward n {| meth := MPS; pe := p; tr := t2 |}).
+Proof.
+  intros n p t1 t2 H1 H2 H3 H4. unfold observe, forward, obs, thetas. cbn [meth pe tr training disc hard p_bn p_samplers].
+  rewrite H1, H2. rewrite (map_ext _ _ (fun q => mps_resample_eval (smp t1) (smp t2) (hard t1) (hard t2) n q H3 H4)). reflexivity.
+Qed.
+
 Theorem mps_eval_resume : forall c ops n, c_meth c = MPS ->
   let s := run (fresh c) ops in
   training (tr s) = false -> smp (tr s) <> NoSamp -> c_smp c <> NoSamp ->
@@ -202,9 +211,7 @@ Proof.
   destruct (keys_run ops (fresh c)) as [Hm _]. fold s in Hm. cbn in Hm. rewrite Hc in Hm.
   unfold resume. rewrite Hl. eexists. split; [reflexivity|].
   destruct s as [m p t]. cbn in Hm, Ht, Hs. subst m. rewrite Hc.
-  unfold observe, forward, set_mode, with_tr. cbn [meth pe tr Ckpt.training Ckpt.hard Ckpt.smp fresh c_smp c_hard]. rewrite !Ht.
-  rewrite (map_ext _ _ (fun q => mps_resample_eval (c_smp c) (Ckpt.smp t) (c_hard c) (Ckpt.hard t) n q Hcs Hs)).
-  reflexivity.
+  unfold set_mode, with_tr. cbn [meth pe tr]. apply observe_forward_mps_eval; cbn [training]; auto.
 Qed.
 
 (* ---------------------------------------------------------------- refutations: options outside the state_dict *)
@@ -216,7 +223,8 @@ Definition w_cfg (m : method) (tr0 : bool) (k : skind) : cfg :=
                   p_masks := match m with PIT => [{| m_names := ["seed.l.out_features_masker"%string]; m_kind := Feat; m_p := [1; 1]; m_ka := [0; 1]; m_c := []; m_fixed := [] |}] | _ => [] end;
                   p_layers := match m with PIT => [{| l_name := "seed.l"%string; l_feat := 0; l_time := None; l_bnorm := []; l_gnorm := [] |}] | _ => [] end;
                   p_samplers := match m with PIT => [] | _ => [mk_sampler [[1; 2]]] end |};
-     c_training := tr0; c_disc := false; c_hard := false; c_smp := k; c_temp := 1 |}.
+     c_training := tr0; c_disc := false; c_hard := false;
+     c_gum := match k with Gs => true | _ => false end; c_nos := match k with NoSamp => true | _ => false end; c_temp := 1 |}.
 
 Definition differs (c : cfg) (ops : list op) (n : nat) (which : observation -> observation -> bool) : bool :=
   match resume n c (run (fresh c) ops) with
@@ -264,7 +272,6 @@ Proof. intros a b <-. unfold eq_export, obs_eqb. cbn. apply tl_eqb_refl. Qed.
 Definition w_pit_disc := (w_cfg PIT true Sm, [OStep [] [[3 # 4; 1]] []; OSetDisc true], 1%nat).
 Definition w_mps_hard := (w_cfg MPS true Sm, [OTrain; OUpdate None (Some true) None None], 1%nat).
 Definition w_mps_gumbel := (w_cfg MPS true Sm, [OTrain; OUpdate None None (Some true) None], 1%nat).
-Definition w_mps_gumbel_reset := (w_cfg MPS true Gs, [OTrain; OUpdate (Some (1 # 2)) None None None], 1%nat).
 Definition w_mps_nosamp := (w_cfg MPS true Sm, [OTrain; OForward 1; OStep [] [] [[[2; 1]]]; OUpdate None None None (Some true)], 2%nat).
 Definition w_sn_hard := (w_cfg SN true Sm, [OEval; OUpdate None (Some true) None None], 1%nat).
 Definition w_sn_temp := (w_cfg SN true Sm, [OTrain; OUpdate (Some (1 # 2)) None None None], 1%nat).
@@ -273,7 +280,7 @@ Definition wdiff (w : cfg * list op * nat) which := differs (fst (fst w)) (snd (
 Lemma witnesses_differ :
   wdiff w_pit_disc eq_cost = true /\ wdiff w_pit_disc eq_out = false /\
   wdiff w_mps_hard eq_out = true /\ wdiff w_mps_hard eq_cost = true /\
-  wdiff w_mps_gumbel eq_out = true /\ wdiff w_mps_gumbel_reset eq_out = true /\
+  wdiff w_mps_gumbel eq_out = true /\
   wdiff w_mps_nosamp eq_out = true /\ wdiff w_mps_nosamp eq_cost = true /\
   wdiff w_sn_hard eq_out = true /\ wdiff w_sn_hard eq_cost = true /\ wdiff w_sn_hard eq_summary = true /\
   wdiff w_sn_temp eq_out = true /\ wdiff w_sn_temp eq_cost = true /\ wdiff w_sn_temp eq_summary = true.
@@ -294,32 +301,28 @@ Theorem resume_after_option_change_refuted :
   (exists c ops n, c_meth c = PIT /\ ops = [OStep [] [[3 # 4; 1]] []; OSetDisc true] /\ ~ resume_statement c ops n) /\
   (exists c ops n, c_meth c = MPS /\ ops = [OTrain; OUpdate None (Some true) None None] /\ ~ resume_statement c ops n) /\
   (exists c ops n, c_meth c = MPS /\ ops = [OTrain; OUpdate None None (Some true) None] /\ ~ resume_statement c ops n) /\
-  (exists c ops n, c_meth c = MPS /\ c_smp c = Gs /\ ops = [OTrain; OUpdate (Some (1 # 2)) None None None] /\ ~ resume_statement c ops n) /\
   (exists c ops n, c_meth c = MPS /\ ops = [OTrain; OForward 1; OStep [] [] [[[2; 1]]]; OUpdate None None None (Some true)] /\ ~ resume_statement c ops n) /\
   (exists c ops n, c_meth c = SN /\ ops = [OEval; OUpdate None (Some true) None None] /\ ~ resume_statement c ops n) /\
   (exists c ops n, c_meth c = SN /\ ops = [OTrain; OUpdate (Some (1 # 2)) None None None] /\ ~ resume_statement c ops n).
 Proof.
-  destruct witnesses_differ as (H1 & _ & H2 & _ & H3 & H4 & H5 & _ & H6 & _ & _ & H7 & _).
+  destruct witnesses_differ as (H1 & _ & H2 & _ & H3 & H5 & _ & H6 & _ & _ & H7 & _).
   repeat split.
   - exists (w_cfg PIT true Sm), (snd (fst w_pit_disc)), 1%nat. repeat split. exact (refute_from_differs w_pit_disc eq_cost eq_cost_refl H1).
   - exists (w_cfg MPS true Sm), (snd (fst w_mps_hard)), 1%nat. repeat split. exact (refute_from_differs w_mps_hard eq_out eq_out_refl H2).
   - exists (w_cfg MPS true Sm), (snd (fst w_mps_gumbel)), 1%nat. repeat split. exact (refute_from_differs w_mps_gumbel eq_out eq_out_refl H3).
-  - exists (w_cfg MPS true Gs), (snd (fst w_mps_gumbel_reset)), 1%nat. repeat split. exact (refute_from_differs w_mps_gumbel_reset eq_out eq_out_refl H4).
   - exists (w_cfg MPS true Sm), (snd (fst w_mps_nosamp)), 2%nat. repeat split. exact (refute_from_differs w_mps_nosamp eq_out eq_out_refl H5).
   - exists (w_cfg SN true Sm), (snd (fst w_sn_hard)), 1%nat. repeat split. exact (refute_from_differs w_sn_hard eq_out eq_out_refl H6).
   - exists (w_cfg SN true Sm), (snd (fst w_sn_temp)), 1%nat. repeat split. exact (refute_from_differs w_sn_temp eq_out eq_out_refl H7).
 Qed.
 
-(* the MPS temperature IS persisted (buffer): changing it (sampler flags passed again) does not break the resume *)
+(* the MPS temperature IS persisted (buffer): changing it does not break the resume, whatever the sampler *)
 Theorem mps_temperature_persisted : forall c steps1 steps2 t n, c_meth c = MPS ->
   forallb (keeps_opts c) steps1 = true -> forallb (keeps_opts c) steps2 = true ->
-  let g := match c_smp c with Gs => Some true | _ => None end in
-  let d := match c_smp c with NoSamp => Some true | _ => None end in
-  resume_statement c (steps1 ++ OUpdate (Some t) None g d :: steps2) n.
+  resume_statement c (steps1 ++ OUpdate (Some t) None None None :: steps2) n.
 Proof.
-  intros c s1 s2 t n Hc H1 H2 g d. apply resume_equiv_neutral_history.
+  intros c s1 s2 t n Hc H1 H2. apply resume_equiv_neutral_history.
   rewrite forallb_app. rewrite H1. cbn [forallb andb]. rewrite H2, andb_true_r.
-  unfold keeps_opts. rewrite Hc. subst g d. destruct (c_smp c); reflexivity.
+  unfold keeps_opts. rewrite Hc. reflexivity.
 Qed.
 
 (* the lazily computed attributes coincide as well after the forward pass *)
